@@ -367,20 +367,29 @@ class ExprMixin:
         o = self.new_container("dict", node, elem=join_all(vals) if vals else None,
                                keys=join_all(keys) if keys else None)
         o.dictkeys = dk if exact else None
+        o.mustkeys = dict(dk)
         deps = frozenset().union(*[v.deps for v in vals + keys]) if vals or keys else frozenset()
         return Val(refs=[o.oid], deps=deps, tags=["display"])
 
     # ------------------------------------------------------------------------------------------ comprehensions
     def _comprehension(self, node, elts, cls):
         saved_env = dict(self.frame.env)
-        head_out = self.out
         lid = self._new_loop_id()
         deps = set()
         iters = []
         saved_loops = self.loops
         saved_guards = self.guards
+        saved_out = self.out
+        ev = self.emit("for", node, head=[], body=[], target=node.generators[0].target, iter=None,
+                       iter_node=node.generators[0].iter, loop_id=lid, parallel=None, comp=True)
+        first = True
         for gen in node.generators:
+            self.out = ev.a["head"] if first else ev.a["body"]
             it = self.eval(gen.iter)
+            if first:
+                ev.a["iter"] = it
+            first = False
+            self.out = ev.a["body"]
             iters.append((gen, it))
             deps |= it.deps
             self.loops = self.loops + ((lid, 1),)
@@ -389,7 +398,9 @@ class ExprMixin:
                 cv = self.eval(cond)
                 deps |= cv.deps
                 self.guards = self.guards + (Guard(cond, True, cv, self.frame.fn),)
+        self.out = ev.a["body"]
         vals = [self.eval(e) for e in elts]
+        self.out = saved_out
         self.loops = saved_loops
         self.guards = saved_guards
         self.frame.env = saved_env
